@@ -72,24 +72,17 @@ Definition set_recs (s : sstate) r q := {| prm := prm s; pst := pst s; recs := r
 Definition cap_at (x c : F) : F := if x >. c then c else x.
 
 (* ---- the score function ---- *)
-Definition topic_score (tp : tparams) (ts : tstats) : option F :=
-  let p1 :=
-    if inMesh ts then
-      if tpTIMQuantum tp =? 0 then None       (* integer division by zero *)
-      else Some (cap_at (fofZ A (Z.quot (meshTime ts) (tpTIMQuantum tp))) (tpTIMCap tp) *. tpTIMWeight tp)
-    else Some (f0 A) in
-  match p1 with
-  | None => None
-  | Some v1 =>
-      let s1 := if inMesh ts then f0 A +. v1 else f0 A in
-      let s2 := s1 +. fmd ts *. tpFMDWeight tp in
-      let s3 := if mmdActive ts && (mmd ts <. tpMMDThreshold tp)
-                then let d := tpMMDThreshold tp -. mmd ts in s2 +. (d *. d) *. tpMMDWeight tp
-                else s2 in
-      let s4 := s3 +. mfp ts *. tpMFPWeight tp in
-      let s5 := s4 +. (imd ts *. imd ts) *. tpIMDWeight tp in
-      Some s5
-  end.
+Definition topic_score (tp : tparams) (ts : tstats) : F :=
+  (* P1 is skipped when its quantum is zero (not configured; accepted under SkipAtomicValidation) *)
+  let s1 := if inMesh ts && negb (tpTIMQuantum tp =? 0)
+            then f0 A +. cap_at (fofZ A (Z.quot (meshTime ts) (tpTIMQuantum tp))) (tpTIMCap tp) *. tpTIMWeight tp
+            else f0 A in
+  let s2 := s1 +. fmd ts *. tpFMDWeight tp in
+  let s3 := if mmdActive ts && (mmd ts <. tpMMDThreshold tp)
+            then let d := tpMMDThreshold tp -. mmd ts in s2 +. (d *. d) *. tpMMDWeight tp
+            else s2 in
+  let s4 := s3 +. mfp ts *. tpMFPWeight tp in
+  s4 +. (imd ts *. imd ts) *. tpIMDWeight tp.
 
 (* number of tracked peers that have this ip *)
 Definition peers_in_ip (s : sstate) (ip : nat) : nat := length (filter (fun e => memb ip (ips (snd e))) (pst s)).
@@ -102,35 +95,25 @@ Definition ip_factor (s : sstate) (ps : pstats) : F :=
                else acc) (ips ps) (f0 A).
 
 (* [app]: the application-specific score of the peer (an input) *)
-Definition score_of_stats (s : sstate) (app : F) (ps : pstats) : option F :=
+Definition topics_sum (P : sparams) (l : list (topic * tstats)) : F :=
+  fold_left (fun sc e => match aget (fst e) (spTopics P) with
+                         | None => sc
+                         | Some tp => sc +. topic_score tp (snd e) *. tpTopicWeight tp
+                         end) l (f0 A).
+Definition cap_topics (P : sparams) (sc : F) : F :=
+  if (spTopicScoreCap P >. f0 A) && (sc >. spTopicScoreCap P) then spTopicScoreCap P else sc.
+Definition p7 (P : sparams) (b : F) : F :=
+  if b >. spBPThreshold P then let e := b -. spBPThreshold P in (e *. e) *. spBPWeight P else f0 A.
+Definition score_of_stats (s : sstate) (app : F) (ps : pstats) : F :=
   let P := prm s in
-  let tsum := fold_left (fun acc e =>
-                 match acc with
-                 | None => None
-                 | Some sc =>
-                     match aget (fst e) (spTopics P) with
-                     | None => Some sc
-                     | Some tp => match topic_score tp (snd e) with
-                                  | None => None
-                                  | Some v => Some (sc +. v *. tpTopicWeight tp)
-                                  end
-                     end
-                 end) (topics ps) (Some (f0 A)) in
-  match tsum with
-  | None => None
-  | Some sc =>
-      let sc1 := if (spTopicScoreCap P >. f0 A) && (sc >. spTopicScoreCap P) then spTopicScoreCap P else sc in
-      let sc2 := sc1 +. app *. spAppWeight P in
-      let sc3 := sc2 +. ip_factor s ps *. spIPWeight P in
-      let sc4 := if bp ps >. spBPThreshold P
-                 then let e := bp ps -. spBPThreshold P in sc3 +. (e *. e) *. spBPWeight P
-                 else sc3 in
-      Some sc4
-  end.
+  let sc1 := cap_topics P (topics_sum P (topics ps)) in
+  let sc2 := sc1 +. app *. spAppWeight P in
+  let sc3 := sc2 +. ip_factor s ps *. spIPWeight P in
+  if bp ps >. spBPThreshold P then sc3 +. p7 P (bp ps) else sc3.
 
-Definition score (s : sstate) (app : list (peer * F)) (p : peer) : option F :=
+Definition score (s : sstate) (app : list (peer * F)) (p : peer) : F :=
   match aget p (pst s) with
-  | None => Some (f0 A)
+  | None => f0 A
   | Some ps => score_of_stats s (match aget p app with Some v => v | None => f0 A end) ps
   end.
 
@@ -225,9 +208,7 @@ Definition sstep (s : sstate) (o : sop) : option sstate :=
       match aget p (pst s) with
       | None => Some s
       | Some ps =>
-          match score_of_stats s app ps with
-          | None => None
-          | Some sc =>
+          let sc := score_of_stats s app ps in
               if sc >. f0 A then Some (set_pst s (adel p (pst s)))
               else
                 let ts' := map (fun e => (fst e,
@@ -237,7 +218,6 @@ Definition sstep (s : sstate) (o : sop) : option sstate :=
                                         | None => mfp ts end in
                                set_ts ts false (graftTime ts) (meshTime ts) (f0 A) (mmd ts) (mmdActive ts) m (imd ts))) (topics ps) in
                 Some (set_pst s (aset p {| connected := false; expire := snow s + spRetain (prm s); topics := ts'; ips := ips ps; bp := bp ps |} (pst s)))
-          end
       end
   | SGraft p t =>
       Some (with_peer s p (fun ps => upd_topic ps t (fun ts =>
